@@ -695,3 +695,171 @@ func vH_C17(data []byte, pre, spare int) {
 	again := StdLibCompatibleString(got)
 	vAssert(again == got, "C17.idempotent")
 }
+
+// ---- number contract used by the generic-decoding harnesses (C03, C08, C15) ----
+// fp.ParseJSONFloatPrefix is replaced (by an executor hook) with vFloatStub: the
+// literal is delimited by the reference number grammar, its value and its
+// "does not fit float64" verdict are uninterpreted functions of the literal's
+// bytes (vNumValue / vNumOverflows are executor intrinsics). What the real
+// conversion computes is the subject of C04; that the real scanner delimits the
+// same literal is checked by the C04 scanner harness.
+var vErrNumSyntax error = &vErr{}
+var vErrNumRange error = &vErr{}
+
+func vFloatStub(data []byte) (float64, int, error) {
+	if len(data) == 0 || !(data[0] == '-' || vIsDigit(data[0])) {
+		return 0, 0, vErrNumSyntax
+	}
+	end, ok := vRefNumberEnd(data, 0)
+	if !ok {
+		return 0, 0, vErrNumSyntax
+	}
+	if vNumOverflows(data[:end]) {
+		return 0, end, vErrNumRange
+	}
+	return vNumValue(data[:end]), end, nil
+}
+
+// ---- reference generic decoder (R-TREE) ------------------------------------
+// data[p:] starts a well-formed value (established by vRefValueEnd beforehand).
+// ok is false when a number inside does not fit float64.
+func vRefDecode(data []byte, p int) (interface{}, int, bool) {
+	c := data[p]
+	switch {
+	case c == '"':
+		e, _ := vRefStringEnd(data, p)
+		return string(vRefUnescape(data[p+1:e-1], nil)), e, true
+	case c == 't':
+		return true, p + 4, true
+	case c == 'f':
+		return false, p + 5, true
+	case c == 'n':
+		return nil, p + 4, true
+	case c == '[':
+		arr := []interface{}{}
+		p = vSkipWS(data, p+1)
+		if data[p] == ']' {
+			return arr, p + 1, true
+		}
+		for {
+			v, e, ok := vRefDecode(data, p)
+			if !ok {
+				return nil, 0, false
+			}
+			arr = append(arr, v)
+			p = vSkipWS(data, e)
+			if data[p] == ']' {
+				return arr, p + 1, true
+			}
+			p = vSkipWS(data, p+1)
+		}
+	case c == '{':
+		obj := map[string]interface{}{}
+		p = vSkipWS(data, p+1)
+		if data[p] == '}' {
+			return obj, p + 1, true
+		}
+		for {
+			ke, _ := vRefStringEnd(data, p)
+			key := string(vRefUnescape(data[p+1:ke-1], nil))
+			p = vSkipWS(data, ke)
+			p = vSkipWS(data, p+1)
+			v, e, ok := vRefDecode(data, p)
+			if !ok {
+				return nil, 0, false
+			}
+			obj[key] = v
+			p = vSkipWS(data, e)
+			if data[p] == '}' {
+				return obj, p + 1, true
+			}
+			p = vSkipWS(data, p+1)
+		}
+	}
+	e, _ := vRefNumberEnd(data, p)
+	if vNumOverflows(data[p:e]) {
+		return nil, 0, false
+	}
+	return vNumValue(data[p:e]), e, true
+}
+
+func vTreeEq(a, b interface{}) bool {
+	switch x := a.(type) {
+	case nil:
+		return b == nil
+	case bool:
+		y, ok := b.(bool)
+		return ok && x == y
+	case float64:
+		y, ok := b.(float64)
+		return ok && x == y
+	case string:
+		y, ok := b.(string)
+		return ok && x == y
+	case []interface{}:
+		y, ok := b.([]interface{})
+		if !ok || len(x) != len(y) {
+			return false
+		}
+		for i := 0; i < len(x); i++ {
+			if !vTreeEq(x[i], y[i]) {
+				return false
+			}
+		}
+		return true
+	case map[string]interface{}:
+		y, ok := b.(map[string]interface{})
+		if !ok || len(x) != len(y) {
+			return false
+		}
+		for k, v := range x {
+			w, ok := y[k]
+			if !ok || !vTreeEq(v, w) {
+				return false
+			}
+		}
+		return true
+	}
+	return false
+}
+
+// ---- C03 ---------------------------------------------------------------
+// which: 0 ReadValue, 1 ReadObject, 2 ReadArray (package-level forms: fresh reader)
+func vH_C03(data []byte, which int) {
+	ws := vSkipWS(data, 0)
+	end, wf := vRefSkip(data)
+	var want interface{}
+	fits := false
+	if wf {
+		want, _, fits = vRefDecode(data, ws)
+	}
+	okWant := wf && fits
+	var got interface{}
+	var p int
+	var err error
+	switch which {
+	case 0:
+		got, p, err = ReadValue(data)
+	case 1:
+		var m map[string]interface{}
+		m, p, err = ReadObject(data)
+		if err == nil {
+			got = m
+		}
+		okWant = okWant && data[ws] == '{'
+	default:
+		var a []interface{}
+		a, p, err = ReadArray(data)
+		if err == nil {
+			got = a
+		}
+		okWant = okWant && data[ws] == '['
+	}
+	vReach("C03.returned")
+	vAssert((err == nil) == okWant, "C03.success")
+	if err == nil && okWant {
+		vReach("C03.success")
+		vAssert(p == end, "C03.offset")
+		vAssert(vTreeEq(got, want), "C03.tree")
+	}
+}
